@@ -56,6 +56,25 @@ theorem C20_cum_euclid (c : List Pt) (ℓ : List Rat) (h : isEuclid c ℓ = true
   · intro j hj
     exact cumDist_get ℓ j (by omega)
 
+/-! ## (A') the cache behind `distance` (model extension from the translator tie T20) -/
+
+/-- Reading `distance` on a usable cache returns the cumulative distance of the CURRENT centre line and leaves a usable cache. -/
+theorem C20_distance_cached (cache : Option (List Rat)) (ℓ : List Rat) (h : CacheOk cache ℓ) :
+    distanceGet cache ℓ = some (cumDist ℓ) ∧ CacheOk (distanceGet cache ℓ) ℓ := by
+  rcases h with h | h <;> subst h <;> exact ⟨rfl, Or.inr rfl⟩
+
+/-- An emptied cache (what every vertex writer except the rigid motion leaves behind, `C20_vertex_writers_reset`) is usable for
+    every new centre line; a cache that is NOT reset is handed out unchanged — the stale-distance defect of d5e439e. -/
+theorem C20_distance_reset (ℓ' : List Rat) : CacheOk none ℓ' ∧ ∀ d ℓ, distanceGet (some d) ℓ = some d :=
+  ⟨Or.inl rfl, fun _ _ => rfl⟩
+
+/-- Every method that assigns a vertex array resets the cache depending on it, except `translate_rotate` (rigid motion).
+    The table is tied to the syntax tree of the current source by `tie_vertex_writers` (CRProps/T20.lean). -/
+theorem C20_vertex_writers_reset :
+    ∀ w ∈ vertexWriters, w.2.2 = true ∨ w.1 = "translate_rotate" := by decide
+
+example : CacheOk none [5, 5, 2] ∧ distanceGet none [5, 5, 2] = some [0, 5, 10, 12] := ⟨Or.inl rfl, by decide +kernel⟩
+
 /-! ## (B) interpolate_position -/
 
 /-- The blended point lies on the segment `a b` at parameter `t`: `blend t a b = a + t·(b − a)`; hence, when `ℓᵢ` is the
